@@ -10,6 +10,7 @@ use p3_circuit::{AluOpKind, Circuit, CircuitError, Op};
 use crate::dispatch_field;
 use crate::e1::{self, Built, GenOpts, Prog};
 use crate::fields::Fc;
+use crate::pv::Pv;
 use crate::fw::{Ctx, Report, hash_of};
 
 pub const RULE: &str = "random source programs (2-40 statements; thorough up to 200) over 5 field \
@@ -83,8 +84,8 @@ pub fn err_name(e: &CircuitError) -> String {
         .to_string()
 }
 
-pub fn check_prog<C: Fc>(prog: &Prog) -> Report {
-    let built: Built<C> = e1::interpret::<C>(prog);
+pub fn check_prog<C: Pv>(prog: &Prog) -> Report {
+    let built: Built<C> = e1::interpret::<C>(prog, e1::Excl::RUNNER);
     let src_sat = built.src_sat();
     let Built {
         builder,
@@ -203,10 +204,14 @@ pub fn check_prog<C: Fc>(prog: &Prog) -> Report {
         match res {
             Err(_) => rep.class("outcome:violating-run-err"),
             Ok(traces) => {
-                if only_bool {
+                if only_bool && hash_of(prog) % 64 != 0 {
+                    // proving every such case would dominate the run; a fixed 1/64 sample
+                    // (by program hash, so deterministic) is proven, the rest is only counted
+                    rep.class("outcome:violating-bool-run-ok(not sampled for proving)")
+                } else if only_bool {
                     // the runner does not evaluate BoolCheck; the property allows "or the
                     // trace cannot be proven" — decided by proving in `violating_bool`.
-                    match crate::checks::c02::prove_rejects::<C>(&circuit, &traces) {
+                    match prove_rejects::<C>(&circuit, &traces, prog.recompose_npo) {
                         Some(true) => rep.class("outcome:violating-bool-unprovable"),
                         Some(false) => fail(
                             rep,
@@ -284,12 +289,19 @@ fn select_with_ext_selector<C: Fc>(nodes: &[e1::Node<C>], i: usize, depth: usize
     }
 }
 
-/// Placeholder until the prover plumbing (E2) is wired in: `None` = not decided.
-pub fn prove_rejects<C: Fc>(
-    _circuit: &Circuit<C::EF>,
-    _traces: &p3_circuit::Traces<C::EF>,
+/// Is the trace of a violating run unprovable?  `Some(true)` = prove or verify failed.
+pub fn prove_rejects<C: Pv>(
+    circuit: &Circuit<C::EF>,
+    traces: &p3_circuit::Traces<C::EF>,
+    recompose: bool,
 ) -> Option<bool> {
-    None
+    let r = C::prove_verify(
+        circuit,
+        traces,
+        &p3_circuit_prover::TablePacking::default(),
+        &crate::pv::NpoSel { recompose, debug_lookups: false },
+    );
+    Some(r.is_err())
 }
 
 fn fail(mut rep: Report, sig: &str, msg: String) -> Report {
